@@ -198,7 +198,7 @@ func C01(c *Ctx) *kf.Report {
 	}
 	sort.Strings(corpus)
 	perFile := c.Pick(12, 400)
-	nCorpusMut, nCorpusCRLF := 0, 0
+	nCorpusMut, nCorpusCRLF, nCorpusScript := 0, 0, 0
 	for _, f := range corpus {
 		b, err := os.ReadFile(f)
 		if err != nil || len(b) > 60000 {
@@ -206,7 +206,7 @@ func C01(c *Ctx) *kf.Report {
 		}
 		tmpl := strings.HasSuffix(f, ".php")
 		rel := strings.TrimPrefix(f, "/repo/")
-		addMutants := func(family, src string, k int) int {
+		addMutants := func(family, src string, tmpl bool, k int) int {
 			n := 0
 			for mi, m := range c01Mutants(src, tmpl, func(n int) []int {
 				if n <= k {
@@ -225,10 +225,17 @@ func C01(c *Ctx) *kf.Report {
 			}
 			return n
 		}
-		nCorpusMut += addMutants("corpus-mutant", string(b), perFile)
+		nCorpusMut += addMutants("corpus-mutant", string(b), tmpl, perFile)
 		// the same file with CRLF line ends (the corpus has none): line accounting of diagnostics, line-oriented constructs
 		if !bytes.Contains(b, []byte("\r")) {
-			nCorpusCRLF += addMutants("corpus-mutant-crlf", strings.ReplaceAll(string(b), "\n", "\r\n"), (perFile+2)/3)
+			nCorpusCRLF += addMutants("corpus-mutant-crlf", strings.ReplaceAll(string(b), "\n", "\r\n"), tmpl, (perFile+2)/3)
+		}
+		// a pure-code .php file without its opening tag is a script-mode source (the lexer of .zy files is a separate
+		// copy of the loop): LF and CRLF forms
+		if tmpl && bytes.HasPrefix(b, []byte("<?php\n")) && !bytes.Contains(b, []byte("?>")) && !bytes.Contains(b, []byte("\r")) {
+			body := string(b[len("<?php\n"):])
+			nCorpusScript += addMutants("corpus-mutant-script", body, false, (perFile+5)/6)
+			nCorpusScript += addMutants("corpus-mutant-script-crlf", strings.ReplaceAll(body, "\n", "\r\n"), false, (perFile+5)/6)
 		}
 	}
 	// generated programs: prefixes and mutants, run when accepted
@@ -498,15 +505,16 @@ func C01(c *Ctx) *kf.Report {
 	rep.Coverage["inputs_sourcegen_long"] = nLong
 	rep.Coverage["inputs_corpus_mutants"] = nCorpusMut
 	rep.Coverage["inputs_corpus_mutants_crlf"] = nCorpusCRLF
+	rep.Coverage["inputs_corpus_mutants_script_mode"] = nCorpusScript
 	rep.Coverage["inputs_generated_program_mutants"] = nGenMut
 	rep.Coverage["inputs_byte_mutants"] = len(inputs) - base
 	rep.Coverage["programs_run_after_accept"] = len(runIdx)
 	rep.Coverage["final_modes_of_sourcegen_inputs"] = finalModes
 	rep.Coverage["sourcegen_inputs_ending_with_open_brackets"] = openEnded
 	rep.Coverage["outcomes"] = outcome
-	rep.Coverage["distinct_nontrivial"] = nSourceGen + nLong + nCorpusMut + nCorpusCRLF + nGenMut
+	rep.Coverage["distinct_nontrivial"] = nSourceGen + nLong + nCorpusMut + nCorpusCRLF + nCorpusScript + nGenMut
 	rep.Coverage["exhaustive"] = false
-	rep.Coverage["rule"] = "SourceGen.tla: every fragment sequence up to length 3 over the 37-fragment core alphabet (thorough: 65 fragments) in both lexing modes, plus TLC -simulate walks up to 8 fragments; corpus: token-boundary prefixes, single-token deletions and duplications of the 331 corpus files at seeded positions (quick 12 per file, thorough 400 = nearly all); the same mutations of generated side-effect-free programs, which are also run when accepted; seeded byte-level mutants; non-trivial = structured inputs (byte mutants not counted)"
+	rep.Coverage["rule"] = "SourceGen.tla: every fragment sequence up to length 3 over the 37-fragment core alphabet (thorough: 65 fragments) in both lexing modes, plus TLC -simulate walks up to 8 fragments; corpus: token-boundary prefixes, single-token deletions and duplications of the 331 corpus files at seeded positions (quick 12 per file, thorough 400 = nearly all), of their CRLF forms (a third of the positions) and, for pure-code .php files, of the script-mode source without the opening tag in LF and CRLF form (a sixth each); the same mutations of generated side-effect-free programs, which are also run when accepted; seeded byte-level mutants; non-trivial = structured inputs (byte mutants not counted)"
 	if len(inputs) > 3 {
 		rep.Coverage["samples"] = []any{map[string]any{"family": inputs[100].id, "fragments": inputs[100].detail, "source": inputs[100].src},
 			map[string]any{"family": inputs[nSourceGen+nLong].id, "what": inputs[nSourceGen+nLong].detail, "source_tail": tailStr(inputs[nSourceGen+nLong].src, 200)}}
